@@ -258,11 +258,31 @@ void h_script_vnacal_new(void)
 	    CHECK(rc == 0, "add: repeating succeeds");
 	}
     }
+#ifdef S_THROUGH
+    {	/* a standard with off-diagonal terms, an unknown parameter and a second use of it (hash hit) */
+	static double complex tv[4][1];
+	double complex *mt[4] = { tv[0], tv[1], tv[2], tv[3] };
+	int calls_before = ghost_err_calls;
+	int eq0 = vnp->vn_equations;
+	int rc;
+
+	tv[0][0] = 0.0; tv[1][0] = mval; tv[2][0] = mval; tv[3][0] = 0.0;
+	rc = vnacal_new_add_through_m(vnp, mt, 2, 2, 1, 2);
+	if (rc == -1) {
+	    FAILED_CLEANLY("add_through");
+	    CHECK(vnp->vn_equations == eq0 && vnp->vn_measurement_count == 1,
+		    "add_through: a failed standard adds nothing");
+	    rc = vnacal_new_add_through_m(vnp, mt, 2, 2, 1, 2);
+	    CHECK(rc == 0, "add_through: repeating succeeds");
+	}
+	CHECK(vnp->vn_measurement_count == 2 && vnp->vn_equations > eq0, "add_through: recorded");
+    }
+#endif
     REACH("script finished");
 #if VERIF_FAIL_AT > 0
     CHECK(verif_alloc_failed, "infra: the injected fault was never reached (vacuous run)");
 #endif
-    CHECK(vnp->vn_measurement_count == 1 && vnp->vn_equations >= 1,
+    CHECK(vnp->vn_measurement_count >= 1 && vnp->vn_equations >= 1,
 	    "final state equals that of the fault-free history");
 #if VERIF_FAIL_AT == 0 && !defined(VERIF_NATIVE)
     CHECK(verif_alloc_count == EXPECT_K, "infra: allocation count differs from the natively measured K");
